@@ -29,6 +29,7 @@ type c08row struct {
 	Failed   bool   `json:"failed"`
 	Panicked bool   `json:"panicked"`
 	PanicMsg string `json:"panic_msg,omitempty"`
+	Mode     string `json:"mode,omitempty"`
 }
 
 func c08lib(s, f, d, nerr int, ign bool, maxF, maxFR int) (row c08row) {
@@ -65,7 +66,35 @@ func c08lib(s, f, d, nerr int, ign bool, maxF, maxFR int) (row c08row) {
 // c08cli runs the real CLI (F1.ExecuteWithArgs) on a scenario that fails exactly f of n
 // iterations, optionally failing setup/teardown; counts are exact because --max-iterations n ends
 // the run, concurrency 1 with an ample rate interval makes drops impossible.
-func c08cli(n, f int, setupFail, teardownFail bool, maxF, maxFR int) (row c08row) {
+// failWith makes the handle fail in one of the ways a scenario can fail.
+func failWith(t *f1testing.T, mode string) {
+	switch mode {
+	case "fail":
+		t.Fail()
+	case "failnow":
+		t.FailNow()
+	case "error":
+		t.Error(errors.New("boom"))
+	case "fatal":
+		t.Fatalf("boom %d", 1)
+	case "require":
+		t.Require().Equal(1, 2)
+	case "panic-error":
+		panic(errors.New("boom"))
+	case "panic-string":
+		panic("boom")
+	case "panic-int":
+		panic(42)
+	case "panic-runtime":
+		var m map[string]int
+		m["x"] = 1
+	}
+}
+
+var failModes = []string{"fail", "failnow", "error", "fatal", "require", "panic-error", "panic-string", "panic-int", "panic-runtime"}
+
+func c08cli(n, f int, setupMode, teardownMode string, maxF, maxFR int) (row c08row) {
+	setupFail, teardownFail := setupMode != "", teardownMode != ""
 	nerr := 0
 	if setupFail {
 		nerr++
@@ -77,7 +106,7 @@ func c08cli(n, f int, setupFail, teardownFail bool, maxF, maxFR int) (row c08row
 	if setupFail {
 		s, f = 0, 0
 	}
-	row = c08row{Kind: "cli", S: s, F: f, D: 0, Nerr: nerr, Ign: false, MaxF: maxF, MaxFR: maxFR}
+	row = c08row{Kind: "cli", S: s, F: f, D: 0, Nerr: nerr, Ign: false, MaxF: maxF, MaxFR: maxFR, Mode: setupMode + "/" + teardownMode}
 	defer func() {
 		if r := recover(); r != nil {
 			row.Panicked = true
@@ -87,10 +116,10 @@ func c08cli(n, f int, setupFail, teardownFail bool, maxF, maxFR int) (row c08row
 	ff := f
 	scen := func(t *f1testing.T) f1testing.RunFn {
 		if teardownFail {
-			t.Cleanup(func() { t.Fail() })
+			t.Cleanup(func() { failWith(t, teardownMode) })
 		}
 		if setupFail {
-			t.FailNow()
+			failWith(t, setupMode)
 		}
 		return func(t *f1testing.T) {
 			var id int
@@ -176,20 +205,31 @@ func init() {
 		// (3) the real CLI
 		type cli struct {
 			n, f       int
-			sf, tf     bool
+			sf, tf     string
 			maxF, mxFR int
 		}
 		cases := []cli{
-			{0, 0, false, false, 0, 0}, {0, 0, false, false, 0, 5}, {0, 0, false, false, 3, 0},
-			{4, 0, false, false, 0, 0}, {4, 1, false, false, 0, 0}, {4, 1, false, false, 1, 0}, {4, 2, false, false, 1, 0},
-			{17, 1, false, false, 0, 5}, {20, 1, false, false, 0, 5}, {20, 2, false, false, 0, 5}, {10, 5, false, false, 0, 50},
-			{10, 6, false, false, 0, 50}, {3, 0, true, false, 0, 0}, {3, 0, false, true, 0, 0}, {3, 0, false, true, 5, 50},
-			{3, 3, false, false, 0, 100}, {5, 2, false, false, 2, 10},
+			{0, 0, "", "", 0, 0}, {0, 0, "", "", 0, 5}, {0, 0, "", "", 3, 0},
+			{4, 0, "", "", 0, 0}, {4, 1, "", "", 0, 0}, {4, 1, "", "", 1, 0}, {4, 2, "", "", 1, 0},
+			{17, 1, "", "", 0, 5}, {20, 1, "", "", 0, 5}, {20, 2, "", "", 0, 5}, {10, 5, "", "", 0, 50},
+			{10, 6, "", "", 0, 50}, {3, 0, "failnow", "", 0, 0}, {3, 0, "", "fail", 0, 0}, {3, 0, "", "fail", 5, 50},
+			{3, 3, "", "", 0, 100}, {5, 2, "", "", 2, 10},
 		}
+		// every way setup or teardown can fail must fail the run (and nothing else does)
+		for _, m := range failModes {
+			cases = append(cases, cli{2, 0, m, "", 0, 0}, cli{2, 0, "", m, 0, 0})
+		}
+		cases = append(cases, cli{3, 1, "", "panic-error", 2, 0}, cli{3, 0, "fail", "panic-string", 5, 50})
 		if !c.quick() {
 			for i := 0; i < 40; i++ {
 				n := 1 + c.rng.Intn(40)
-				cases = append(cases, cli{n, c.rng.Intn(n + 1), c.rng.Intn(10) == 0, c.rng.Intn(10) == 0,
+				pickMode := func() string {
+					if c.rng.Intn(10) == 0 {
+						return failModes[c.rng.Intn(len(failModes))]
+					}
+					return ""
+				}
+				cases = append(cases, cli{n, c.rng.Intn(n + 1), pickMode(), pickMode(),
 					[]int{0, 0, 1, 3}[c.rng.Intn(4)], []int{0, 0, 5, 10, 50}[c.rng.Intn(5)]})
 			}
 		}
